@@ -1152,8 +1152,17 @@ func runBehaviour(steps []bStep, auth string, maxqos int, res *Result) (result *
 				r.locals[a.L] = l
 			}
 			atomic.StoreInt32(&l.armed, 0)
+			if a.Kind == "failing" {
+				atomic.StoreInt32(&l.armed, 1) // the callback fails on the retained message too
+			}
 			err := r.svr.Subscribe(a.F, byte(a.Q), &l.fn)
 			atomic.StoreInt32(&l.armed, 1)
+			if a.Kind == "failing" {
+				if err == nil {
+					return &brokerMismatch{where + ": the subscriber's callback reported an error for the retained message, Server.Subscribe returned nil", "C08"}
+				}
+				err = nil
+			}
 			if err != nil {
 				return &brokerMismatch{where + ": Server.Subscribe: " + err.Error(), "C01"}
 			}
